@@ -111,7 +111,7 @@ def main():
             except Exception as e:
                 cex = {'found': False, 'note': str(e)}
             if cex.get('found'):
-                found = {'obligation': 'kani-twin/%s (the proof text no longer fits the changed body)' % fname,
+                found = {'obligation': 'twin/%s (the proof text no longer fits the changed body; bounded twin %s found a failing input)' % (fname, cex.get('harness')),
                          'function': fname, 'kind': 'kani-twin', 'props': [pid], 'where': [],
                          'message': 'bounded twin %s fails' % cex.get('harness'),
                          'rendered': (r.get('reason') or '') + '\n' + (cex.get('native_output') or '')[-1500:],
